@@ -13,6 +13,70 @@ def Rel (a b : Action) : Prop := a.isConn = b.isConn → a.id ≠ b.id
 
 theorem Rel.symm {a b : Action} (h : Rel a b) : Rel b a := fun e he => h e.symm he.symm
 
+/-- connector ids are unique: every connector object is THE one its id looks up -/
+def ConnUniq (sc : Scene) : Prop := (sc.conns.map (·.id)).Nodup
+
+theorem find_of_nodup (l : List Conn) (h : (l.map (·.id)).Nodup) (k : Conn) (hk : k ∈ l) :
+    l.find? (·.id == k.id) = some k := by
+  induction l with
+  | nil => cases hk
+  | cons a l ih =>
+    rw [List.map_cons, List.nodup_cons] at h
+    rcases List.mem_cons.1 hk with rfl | hk'
+    · simp
+    · have : a.id ≠ k.id := fun e => h.1 (e ▸ List.mem_map.2 ⟨k, hk', rfl⟩)
+      rw [List.find?_cons]
+      have hb : (a.id == k.id) = false := by simpa using this
+      rw [hb]
+      exact ih h.2 hk'
+
+theorem connFind_of_uniq {sc : Scene} (h : ConnUniq sc) (k : Conn) (hk : k ∈ sc.conns) : findConn sc k.id = some k :=
+  find_of_nodup sc.conns h k hk
+
+theorem ids_mapConn (sc : Scene) (i : Nat) (f : Conn → Conn) (hf : ∀ c, (f c).id = c.id) :
+    (mapConn sc i f).conns.map (·.id) = sc.conns.map (·.id) := by
+  unfold mapConn
+  simp only [List.map_map]
+  apply List.map_congr_left
+  intro c _
+  simp only [Function.comp]
+  split
+  · exact hf c
+  · rfl
+
+theorem ids_pass3One (sc : Scene) (a : Action) : (pass3One sc a).conns.map (·.id) = sc.conns.map (·.id) := by
+  unfold pass3One
+  cases a.kind <;> try rfl
+  simp only []
+  generalize a.conns = us
+  induction us generalizing sc with
+  | nil => rfl
+  | cons u us ih =>
+    simp only [List.foldl_cons, ih]
+    exact ids_mapConn sc a.id _ (fun c => Conn.setEnd_id c _ _)
+
+theorem ids_runPasses (sc : Scene) (l : List Action) : (runPasses sc l).conns.map (·.id) = sc.conns.map (·.id) := by
+  unfold runPasses
+  have h3 : ∀ (l' : List Action) (s : Scene), (l'.foldl pass3One s).conns.map (·.id) = s.conns.map (·.id) := by
+    intro l'
+    induction l' with
+    | nil => intro s; rfl
+    | cons a l' ih => intro s; simp only [List.foldl_cons, ih, ids_pass3One]
+  have h2 : ∀ (l' : List Action) (s : Scene), (l'.foldl pass2One s).conns = s.conns := by
+    intro l'
+    induction l' with
+    | nil => intro s; rfl
+    | cons a l' ih => intro s; simp only [List.foldl_cons, ih, conns_pass2One]
+  have h1 : ∀ (l' : List Action) (s : Scene), (l'.foldl pass1One s).conns = s.conns := by
+    intro l'
+    induction l' with
+    | nil => intro s; rfl
+    | cons a l' ih => intro s; simp only [List.foldl_cons, ih, conns_pass1One]
+  rw [h3, h2, h1]
+
+theorem connUniq_runPasses {sc : Scene} (h : ConnUniq sc) (l : List Action) : ConnUniq (runPasses sc l) := by
+  unfold ConnUniq; rw [ids_runPasses]; exact h
+
 /-- invariant of every state reachable by legal calls -/
 structure Inv (st : State) : Prop where
   /-- at most one queued action per object -/
@@ -25,6 +89,8 @@ structure Inv (st : State) : Prop where
   inactiveAdd : ∀ id o, findObst st.scene id = some o → o.active = false → hasAct st.queue .add id = true
   /-- the queued endpoint updates of one `ConnChange` concern distinct ends (`addConnEndUpdate`) -/
   endsDistinct : ∀ a ∈ st.queue, a.conns.Pairwise (fun u v => u.1 ≠ v.1)
+  /-- connector ids are unique: every connector object is THE one its id looks up -/
+  connFind : ConnUniq st.scene
 
 theorem isConn_iff (a : Action) : a.isConn = true ↔ a.kind = .connChange := by
   unfold Action.isConn; cases a.kind <;> simp
@@ -232,10 +298,287 @@ theorem findAct_conn_none_of_no {q : List Action} {id : Nat}
     · rw [isConn_false_iff] at h1; exact absurd hbk h1
     · exact absurd hbi h1
 
+/-! ### the pin-move updates queued by the first loop of `processActions` (`genPinMoves`) change nothing
+    that the transaction shows: a queued user change of the same end is left alone (the
+    `isConnPinMoveUpdate` guard of `addConnEndUpdate`), and where there is none the update re-states the end
+    the connector already has -/
+
+def notConn (a : Action) : Bool := !a.isConn
+
+theorem foldl_filter_noop {σ α} (F : σ → α → σ) (p : α → Bool) (h : ∀ s a, p a = false → F s a = s)
+    (l : List α) (s : σ) : l.foldl F s = (l.filter p).foldl F s := by
+  induction l generalizing s with
+  | nil => rfl
+  | cons a l ih =>
+    by_cases hp : p a = true
+    · simp only [List.foldl_cons, List.filter_cons, hp, if_true, ih]
+    · have hp' : p a = false := by simpa using hp
+      simp only [List.foldl_cons, List.filter_cons, hp', Bool.false_eq_true, if_false, h s a hp', ih]
+
+theorem pass1One_conn (sc : Scene) (a : Action) (h : notConn a = false) : pass1One sc a = sc := by
+  have : a.kind = .connChange := by
+    unfold notConn Action.isConn at h; cases hk : a.kind <;> simp_all
+  unfold pass1One; rw [this]
+
+theorem pass2One_conn (sc : Scene) (a : Action) (h : notConn a = false) : pass2One sc a = sc := by
+  have : a.kind = .connChange := by
+    unfold notConn Action.isConn at h; cases hk : a.kind <;> simp_all
+  unfold pass2One; rw [this]
+
+theorem updFirst_filter {α} (P : α → Bool) (f : α → α) (r : α → Bool)
+    (h : ∀ a, P a = true → r a = false ∧ r (f a) = false) (l : List α) :
+    (updFirst P f l).filter r = l.filter r := by
+  induction l with
+  | nil => rfl
+  | cons a l ih =>
+    unfold updFirst
+    by_cases hP : P a = true
+    · simp [hP, List.filter_cons, (h a hP).1, (h a hP).2]
+    · simp only [hP, Bool.false_eq_true, if_false, List.filter_cons, ih]
+
+theorem modifyConnector_filter (q : List Action) (c : Nat) (e : End) (p : CEnd) (f : Bool) :
+    (modifyConnector q c e p f).filter notConn = q.filter notConn := by
+  unfold modifyConnector
+  split
+  · apply updFirst_filter
+    intro a ha
+    simp only [Bool.and_eq_true, beq_iff_eq] at ha
+    simp [notConn, Action.isConn, ha.1]
+  · simp [List.filter_append, notConn, Action.isConn]
+
+theorem moveAttachedConns_filter (sc : Scene) (q : List Action) (m : Nat) :
+    (moveAttachedConns sc q m).filter notConn = q.filter notConn := by
+  unfold moveAttachedConns
+  generalize attachedEnds sc m = ts
+  induction ts generalizing q with
+  | nil => rfl
+  | cons t ts ih => simp only [List.foldl_cons, ih, modifyConnector_filter]
+
+theorem genPinMoves_filter (sc : Scene) (q : List Action) :
+    (genPinMoves sc q).filter notConn = q.filter notConn := by
+  unfold genPinMoves
+  suffices h : ∀ (l acc : List Action),
+      (l.foldl (fun acc a => if a.kind == .move then moveAttachedConns sc acc a.id else acc) acc).filter notConn
+        = acc.filter notConn from h q q
+  intro l
+  induction l with
+  | nil => intro acc; rfl
+  | cons a l ih =>
+    intro acc
+    simp only [List.foldl_cons, ih]
+    split
+    · exact moveAttachedConns_filter sc acc a.id
+    · rfl
+
+theorem obsts_fold3 (l : List Action) (sc : Scene) : (l.foldl pass3One sc).obsts = sc.obsts := by
+  induction l generalizing sc with
+  | nil => rfl
+  | cons a l ih => simp only [List.foldl_cons, ih, obsts_pass3One]
+
+/-- the first two loops see only the obstacle actions: the appended / merged `ConnChange` entries are skipped -/
+theorem obsts_runPasses_genPinMoves (sc : Scene) (q : List Action) :
+    (runPasses sc (genPinMoves sc q)).obsts = (runPasses sc q).obsts := by
+  unfold runPasses
+  rw [obsts_fold3, obsts_fold3]
+  rw [foldl_filter_noop pass1One notConn pass1One_conn (genPinMoves sc q),
+      foldl_filter_noop pass2One notConn pass2One_conn (genPinMoves sc q), genPinMoves_filter,
+      ← foldl_filter_noop pass1One notConn pass1One_conn q, ← foldl_filter_noop pass2One notConn pass2One_conn q]
+
+/-- effect of the last loop on connector `c` -/
+def G (c : Nat) (l : List Action) (x : Option Conn) : Option Conn := l.foldl (fun x a => g3 a c x) x
+
+theorem findConn_runPasses (sc : Scene) (l : List Action) (c : Nat) :
+    findConn (runPasses sc l) c = G c l (findConn sc c) := by
+  unfold runPasses G
+  rw [findConn_fold3, findConn_fold2, findConn_fold1]
+
+theorem G_cons (c : Nat) (a : Action) (l : List Action) (x : Option Conn) : G c (a :: l) x = G c l (g3 a c x) := rfl
+
+theorem G_append (c : Nat) (l1 l2 : List Action) (x : Option Conn) : G c (l1 ++ l2) x = G c l2 (G c l1 x) := by
+  unfold G; rw [List.foldl_append]
+
+theorem getEnd_setEnd_ne (k : Conn) (e e' : End) (p : CEnd) (h : e' ≠ e) : (k.setEnd e' p).getEnd e = k.getEnd e := by
+  cases e <;> cases e' <;> simp_all [Conn.setEnd, Conn.getEnd]
+
+theorem getEnd_applyUpdates (us : List (End × CEnd)) (k : Conn) (e : End) (h : ∀ u ∈ us, u.1 ≠ e) :
+    (k.applyUpdates us).getEnd e = k.getEnd e := by
+  induction us generalizing k with
+  | nil => rfl
+  | cons u us ih =>
+    show ((k.setEnd u.1 u.2).applyUpdates us).getEnd e = k.getEnd e
+    rw [ih _ (fun v hv => h v (List.mem_cons_of_mem _ hv)), getEnd_setEnd_ne _ _ _ _ (h u (List.mem_cons_self ..))]
+
+theorem setEnd_of_getEnd (k : Conn) (e : End) (p : CEnd) (h : k.getEnd e = some p) : k.setEnd e p = k := by
+  cases e <;> cases k <;> simp_all [Conn.setEnd, Conn.getEnd]
+
+theorem applyUpdates_append_one (us : List (End × CEnd)) (k : Conn) (e : End) (p : CEnd) :
+    k.applyUpdates (us ++ [(e, p)]) = (k.applyUpdates us).setEnd e p := by
+  simp [Conn.applyUpdates, List.foldl_append]
+
+/-- a pin-move update that re-states the end the connector has does not change what the queued
+    updates make of the connector: it is dropped if the end has a queued change, else it is a no-op -/
+theorem applyUpdates_pinMove (us : List (End × CEnd)) (k : Conn) (e : End) (p : CEnd) (h : k.getEnd e = some p) :
+    k.applyUpdates (addConnEndUpdate us e p true) = k.applyUpdates us := by
+  unfold addConnEndUpdate
+  by_cases ha : us.any (·.1 == e) = true
+  · simp [ha]
+  · simp only [ha, Bool.false_eq_true, if_false]
+    rw [applyUpdates_append_one, setEnd_of_getEnd]
+    rw [getEnd_applyUpdates _ _ _ ?_, h]
+    intro u hu hne
+    apply ha
+    rw [List.any_eq_true]
+    exact ⟨u, hu, by simp [hne]⟩
+
+theorem G_updFirst_same (c : Nat) (k : Conn) (e : End) (p : CEnd) (hk : k.getEnd e = some p) (l : List Action) :
+    G c (updFirst (fun a => a.kind == .connChange && a.id == c)
+          (fun a => { a with conns := addConnEndUpdate a.conns e p true }) l) (some k) = G c l (some k) := by
+  induction l with
+  | nil => rfl
+  | cons a l ih =>
+    unfold updFirst
+    by_cases hP : (a.kind == Kind.connChange && a.id == c) = true
+    · simp only [hP, if_true, G_cons]
+      congr 1
+      simp only [Bool.and_eq_true, beq_iff_eq] at hP
+      unfold g3
+      simp only [hP.1, hP.2, and_self, if_true, Option.map_some, applyUpdates_pinMove _ _ _ _ hk]
+    · simp only [hP, Bool.false_eq_true, if_false, G_cons]
+      have : g3 a c (some k) = some k := by
+        unfold g3
+        simp only [Bool.and_eq_true, beq_iff_eq] at hP
+        simp [hP]
+      rw [this, ih]
+
+theorem G_updFirst_other (c c' : Nat) (hne : c' ≠ c) (f : Action → Action)
+    (hf : ∀ a, (f a).kind = a.kind ∧ (f a).id = a.id) (l : List Action) (x : Option Conn) :
+    G c (updFirst (fun a => a.kind == .connChange && a.id == c') f l) x = G c l x := by
+  induction l generalizing x with
+  | nil => rfl
+  | cons a l ih =>
+    unfold updFirst
+    by_cases hP : (a.kind == Kind.connChange && a.id == c') = true
+    · simp only [hP, if_true, G_cons]
+      congr 1
+      simp only [Bool.and_eq_true, beq_iff_eq] at hP
+      have h1 : a.id ≠ c := by rw [hP.2]; exact hne
+      unfold g3
+      simp [(hf a).1, (hf a).2, h1]
+    · simp only [hP, Bool.false_eq_true, if_false, G_cons, ih]
+
+theorem G_noop_of_none (c : Nat) (q : List Action) (h : findAct q .connChange c = none) (x : Option Conn) :
+    G c q x = x := by
+  unfold G
+  apply fold_noop (fun a => g3 a c)
+  intro b hb y
+  apply g3_noop
+  by_cases hc : b.isConn = false
+  · exact Or.inl hc
+  · refine Or.inr fun e => findAct_none h b hb ⟨?_, e⟩
+    rw [← isConn_iff]; simpa using hc
+
+/-- one pin-move `modifyConnector` call for an end of connector object `k` of the scene, carrying the end that
+    `k` has: the last loop's effect on every connector `c` is unchanged -/
+theorem G_modifyConnector (sc : Scene) (hu : ConnUniq sc) (c : Nat) (q : List Action) (k : Conn) (hk : k ∈ sc.conns)
+    (e : End) (p : CEnd) (hp : k.getEnd e = some p) :
+    G c (modifyConnector q k.id e p true) (findConn sc c) = G c q (findConn sc c) := by
+  unfold modifyConnector
+  by_cases hc : k.id = c
+  · subst hc
+    rw [connFind_of_uniq hu k hk]
+    cases hh : hasAct q .connChange k.id with
+    | true => simp only [if_true]; exact G_updFirst_same k.id k e p hp q
+    | false =>
+      simp only [Bool.false_eq_true, if_false, G_append]
+      have hn : findAct q .connChange k.id = none := by
+        unfold hasAct at hh; simpa using hh
+      rw [G_noop_of_none _ _ hn]
+      show g3 _ k.id (some k) = some k
+      unfold g3
+      simp [Conn.applyUpdates, setEnd_of_getEnd _ _ _ hp]
+  · split
+    · exact G_updFirst_other c k.id hc (fun a => { a with conns := addConnEndUpdate a.conns e p true })
+        (fun a => ⟨rfl, rfl⟩) q _
+    · rw [G_append]
+      show g3 _ c _ = _
+      unfold g3
+      simp [hc]
+
+theorem attachedEnds_mem (sc : Scene) (m : Nat) (t : Nat × End × CEnd) (ht : t ∈ attachedEnds sc m) :
+    ∃ k ∈ sc.conns, k.id = t.1 ∧ k.getEnd t.2.1 = some t.2.2 := by
+  unfold attachedEnds at ht
+  rw [List.mem_flatMap] at ht
+  obtain ⟨k, hk, hm⟩ := ht
+  refine ⟨k, hk, ?_⟩
+  rw [List.mem_append] at hm
+  rcases hm with hm | hm
+  · cases hs : k.src with
+    | none => simp [hs] at hm
+    | some s =>
+      simp only [hs] at hm
+      split at hm
+      · simp only [List.mem_singleton] at hm; subst hm; exact ⟨rfl, hs⟩
+      · simp at hm
+  · cases hs : k.dst with
+    | none => simp [hs] at hm
+    | some s =>
+      simp only [hs] at hm
+      split at hm
+      · simp only [List.mem_singleton] at hm; subst hm; exact ⟨rfl, hs⟩
+      · simp at hm
+
+theorem G_moveAttachedConns (sc : Scene) (hu : ConnUniq sc) (c : Nat) (q : List Action) (m : Nat) :
+    G c (moveAttachedConns sc q m) (findConn sc c) = G c q (findConn sc c) := by
+  unfold moveAttachedConns
+  have hall := attachedEnds_mem sc m
+  generalize attachedEnds sc m = ts at hall
+  induction ts generalizing q with
+  | nil => rfl
+  | cons t ts ih =>
+    simp only [List.foldl_cons]
+    rw [ih _ (fun t' ht' => hall t' (List.mem_cons_of_mem _ ht'))]
+    obtain ⟨k, hk, hid, hp⟩ := hall t (List.mem_cons_self ..)
+    rw [← hid]
+    exact G_modifyConnector sc hu c q k hk _ _ hp
+
+theorem G_genPinMoves (sc : Scene) (hu : ConnUniq sc) (c : Nat) (q : List Action) :
+    G c (genPinMoves sc q) (findConn sc c) = G c q (findConn sc c) := by
+  unfold genPinMoves
+  suffices h : ∀ (l acc : List Action),
+      G c (l.foldl (fun acc a => if a.kind == .move then moveAttachedConns sc acc a.id else acc) acc) (findConn sc c)
+        = G c acc (findConn sc c) from h q q
+  intro l
+  induction l with
+  | nil => intro acc; rfl
+  | cons a l ih =>
+    intro acc
+    simp only [List.foldl_cons, ih]
+    split
+    · exact G_moveAttachedConns sc hu c acc a.id
+    · rfl
+
+theorem findObst_runPasses_genPinMoves (sc : Scene) (q : List Action) (id : Nat) :
+    findObst (runPasses sc (genPinMoves sc q)) id = findObst (runPasses sc q) id :=
+  findObst_congr (obsts_runPasses_genPinMoves sc q) id
+
+theorem findConn_runPasses_genPinMoves (sc : Scene) (hu : ConnUniq sc) (q : List Action) (c : Nat) :
+    findConn (runPasses sc (genPinMoves sc q)) c = findConn (runPasses sc q) c := by
+  rw [findConn_runPasses, findConn_runPasses, G_genPinMoves sc hu]
+
+/-- the pin-move updates leave what the transaction shows unchanged -/
+theorem view_runPasses_genPinMoves (sc : Scene) (hu : ConnUniq sc) (q : List Action) :
+    view (runPasses sc (genPinMoves sc q)) = view (runPasses sc q) := by
+  apply AScene.ext'
+  · intro id; simp only [view, findObst_runPasses_genPinMoves]
+  · intro c; simp only [view, findConn_runPasses_genPinMoves sc hu]
+
 /-- **Flush theorem**: the scene produced by `processActions` (sort + three loops) shows exactly
     what the pending queue promised. -/
 theorem view_processActions (st : State) (h : Inv st) :
     view (processActions st).scene = pending st := by
+  have hpm : view (processActions st).scene = view (runPasses st.scene (sortActions st.queue)) :=
+    view_runPasses_genPinMoves st.scene h.connFind _
+  rw [hpm]
   apply AScene.ext'
   · intro id
     simp only [view, pending, processActions]
@@ -277,10 +620,11 @@ theorem view_processActions (st : State) (h : Inv st) :
 
 /-- after `processActions` the queue is empty and the invariant holds again -/
 theorem inv_processActions (st : State) (h : Inv st) : Inv (processActions st) := by
-  refine ⟨by simp [processActions], by simp [processActions], by simp [processActions], ?_, by simp [processActions]⟩
+  refine ⟨by simp [processActions], by simp [processActions], by simp [processActions], ?_, by simp [processActions],
+    connUniq_runPasses h.connFind _⟩
   intro id o ho hact
   exfalso
-  simp only [processActions] at ho
+  simp only [processActions, findObst_runPasses_genPinMoves] at ho
   by_cases hex : ∃ a ∈ st.queue, a.isConn = false ∧ a.id = id
   · obtain ⟨a, ha, hc, rfl⟩ := hex
     rw [findObst_runPasses_some _ _ h.uniq a ha hc] at ho
